@@ -15,6 +15,9 @@ Next == /\ l <= Len(Trace)
                valid == ValidBlockProof(e.proof, e.blk, e.mode) IN
            /\ Chk(e.result # "panic" /\ e.ids # "panic", "c02_panic")
            /\ Chk(e.result = "ok" => valid, "c02_accepted_invalid_proof")
+           \* the public entry point of a running node answers what the worker's function answers
+           /\ Chk(e.result_main \in {"", e.result}, "c02_main_loop_entry_point_answers_differently")
+           /\ Chk(e.result_main = "ok" => valid, "c02_accepted_invalid_proof")
            \* "that height's committee": the membership was asked with the reference time of the PREVIOUS block
            /\ Chk(e.wrong_epoch = 0, "c02_committee_of_another_reference_time")
            /\ Chk((valid /\ e.canon) => e.result = "ok", "drift_rejected_valid_proof")
